@@ -13,8 +13,14 @@
  *   fRepo  g_irepository_find_by_name / find_by_gtype / find_by_error_domain on the default
  *            repository holding the typelib as compiled (info -> directory index through the blob
  *            offset); repoAsked = 0 when the string cannot be a GType name (no GType registered)
- *   -1 = pointer returned does not address a directory slot, -2 = info offset is no local entry
+ *   -7 = the call faulted (read outside the typelib), -1 = pointer returned does not address a directory slot, -2 = info offset is no local entry,
+ *   -3 (and repoAsked = 0) = the repository answered from another loaded namespace (dependencies of
+ *   system typelibs are loaded from GI_TYPELIB_PATH)
  * GTypes are taken from g_type_from_name() or registered as dummy boxed types of that name.
+ *
+ * Every copy of the typelib is placed so that it ENDS at an inaccessible guard page: a read past the
+ * end of the typelib (e.g. table[offset] with an unclamped offset) faults; the fault is caught per
+ * lookup and reported as -7 for that result instead of going unnoticed.
  *
  * No GLib headers exist in the sandbox: declarations missing from the shim are written here.
  */
@@ -23,6 +29,10 @@
 #include <stdio.h>
 #include <stdlib.h>
 #include <string.h>
+#include <signal.h>
+#include <setjmp.h>
+#include <unistd.h>
+#include <sys/mman.h>
 
 #include "girepository.h"
 #include "girepository-private.h"
@@ -73,6 +83,23 @@ load_copy (const char *path, gboolean blank_sections)
       fprintf (stderr, "drv_lookup: cannot read %s: %s\n", path, err->message);
       exit (3);
     }
+  {
+    /* copy to the end of a private mapping followed by a PROT_NONE page */
+    size_t page = (size_t) sysconf (_SC_PAGESIZE);
+    size_t span = ((len + page - 1) / page) * page;
+    guint8 *base = mmap (NULL, span + page, PROT_READ | PROT_WRITE, MAP_PRIVATE | MAP_ANONYMOUS, -1, 0);
+    guint8 *at;
+    if (base == MAP_FAILED || (len & 3) != 0)
+      {
+        fprintf (stderr, "drv_lookup: cannot map %lu bytes (length must be a multiple of 4)\n", (unsigned long) len);
+        exit (3);
+      }
+    mprotect (base + span, page, PROT_NONE);
+    at = base + span - len;
+    memcpy (at, contents, len);
+    g_free (contents);
+    contents = (gchar *) at;
+  }
   if (blank_sections)
     ((Header *) contents)->sections = 0;
   tl = g_typelib_new_from_memory ((guint8 *) contents, len, &err);
@@ -143,14 +170,65 @@ static gpointer dummy_copy (gpointer p) { return p; }
 static void dummy_free (gpointer p) { }
 
 static long
-info_index (GHashTable *by_offset, GIBaseInfo *info)
+info_index (GHashTable *by_offset, GIBaseInfo *info, GITypelib *reg, int *asked)
 {
   gpointer v;
   if (info == NULL)
     return 0;
+  if (((GIRealInfo *) info)->typelib != reg)
+    {
+      /* answered from another loaded namespace (a dependency of a system typelib): not comparable */
+      *asked = 0;
+      return -3;
+    }
   if (!g_hash_table_lookup_extended (by_offset, GUINT_TO_POINTER (((GIRealInfo *) info)->offset), NULL, &v))
     return -2;
   return (long) GPOINTER_TO_UINT (v);
+}
+
+static sigjmp_buf fault_jmp;
+static volatile int fault_armed;
+
+static void
+on_fault (int sig)
+{
+  if (fault_armed)
+    siglongjmp (fault_jmp, 1);
+  _exit (128 + sig);
+}
+
+/* evaluate EXPR into VAR; a memory fault inside the library makes VAR = -7 */
+#define GUARDED(var, expr) \
+  do { fault_armed = 1; if (sigsetjmp (fault_jmp, 1) == 0) { var = (expr); } else { var = -7; } fault_armed = 0; } while (0)
+
+static long
+repo_by_name (GHashTable *by_offset, GITypelib *reg, const char *ns, const char *s, int *asked)
+{
+  GIBaseInfo *info = g_irepository_find_by_name (NULL, ns, s);
+  long r = info_index (by_offset, info, reg, asked);
+  if (info)
+    g_base_info_unref (info);
+  return r;
+}
+
+static long
+repo_by_gtype (GHashTable *by_offset, GITypelib *reg, GType gt, int *asked)
+{
+  GIBaseInfo *info = g_irepository_find_by_gtype (NULL, gt);
+  long r = info_index (by_offset, info, reg, asked);
+  if (info)
+    g_base_info_unref (info);
+  return r;
+}
+
+static long
+repo_by_domain (GHashTable *by_offset, GITypelib *reg, GQuark q, int *asked)
+{
+  GIBaseInfo *info = (GIBaseInfo *) g_irepository_find_by_error_domain (NULL, q);
+  long r = info_index (by_offset, info, reg, asked);
+  if (info)
+    g_base_info_unref (info);
+  return r;
 }
 
 static int
@@ -169,6 +247,14 @@ probe (const char *path, const char *probefile)
   ssize_t got;
   guint i;
 
+  {
+    struct sigaction sa;
+    memset (&sa, 0, sizeof sa);
+    sa.sa_handler = on_fault;
+    sa.sa_flags = SA_NODEFER;
+    sigaction (SIGSEGV, &sa, NULL);
+    sigaction (SIGBUS, &sa, NULL);
+  }
   print_header (tl);
   for (i = 1; i <= h->n_local_entries; i++)
     {
@@ -205,18 +291,14 @@ probe (const char *path, const char *probefile)
       s = t + 1;
       if (kind == 'N')
         {
-          GIBaseInfo *info;
-          fidx = entry_index (tl, g_typelib_get_dir_entry_by_name (tl, s));
-          flin = entry_index (lin, g_typelib_get_dir_entry_by_name (lin, s));
-          info = g_irepository_find_by_name (NULL, ns, s);
-          frepo = info_index (by_offset, info);
-          if (info)
-            g_base_info_unref (info);
+          GUARDED (fidx, entry_index (tl, g_typelib_get_dir_entry_by_name (tl, s)));
+          GUARDED (flin, entry_index (lin, g_typelib_get_dir_entry_by_name (lin, s)));
+          GUARDED (frepo, repo_by_name (by_offset, reg, ns, s, &asked));
         }
       else if (kind == 'G')
         {
-          fidx = entry_index (tl, g_typelib_get_dir_entry_by_gtype_name (tl, s));
-          flin = entry_index (lin, g_typelib_get_dir_entry_by_gtype_name (lin, s));
+          GUARDED (fidx, entry_index (tl, g_typelib_get_dir_entry_by_gtype_name (tl, s)));
+          GUARDED (flin, entry_index (lin, g_typelib_get_dir_entry_by_gtype_name (lin, s)));
           if (valid_gtype_name (s))
             {
               GType gt = g_type_from_name (s);
@@ -225,12 +307,7 @@ probe (const char *path, const char *probefile)
               if (gt == 0)
                 asked = 0;
               else
-                {
-                  GIBaseInfo *info = g_irepository_find_by_gtype (NULL, gt);
-                  frepo = info_index (by_offset, info);
-                  if (info)
-                    g_base_info_unref (info);
-                }
+                GUARDED (frepo, repo_by_gtype (by_offset, reg, gt, &asked));
             }
           else
             asked = 0;
@@ -238,13 +315,9 @@ probe (const char *path, const char *probefile)
       else if (kind == 'E')
         {
           GQuark q = g_quark_from_string (s);
-          GIBaseInfo *info;
-          fidx = entry_index (tl, g_typelib_get_dir_entry_by_error_domain (tl, q));
-          flin = entry_index (lin, g_typelib_get_dir_entry_by_error_domain (lin, q));
-          info = (GIBaseInfo *) g_irepository_find_by_error_domain (NULL, q);
-          frepo = info_index (by_offset, info);
-          if (info)
-            g_base_info_unref (info);
+          GUARDED (fidx, entry_index (tl, g_typelib_get_dir_entry_by_error_domain (tl, q)));
+          GUARDED (flin, entry_index (lin, g_typelib_get_dir_entry_by_error_domain (lin, q)));
+          GUARDED (frepo, repo_by_domain (by_offset, reg, q, &asked));
         }
       else
         continue;
